@@ -470,3 +470,40 @@ def c08_fresh(n, every=1):
                             k["base"] = name
                 yield pre + c
     return expand
+
+
+# ------------------------------------------------------------------- C11
+_B64U = b"ABCDEFGHIJKLMNOPQRSTUVWXYZabcdefghijklmnopqrstuvwxyz0123456789-_"
+
+
+def c11_random(ncases, per_case):
+    """Random byte strings up to 64 KiB: encode; decode of valid text, of text with one
+    foreign byte, of text of length 1 mod 4, of standard-alphabet spellings."""
+    import base64
+
+    def gen(seed):
+        rnd = random.Random(seed * 49979687 + 11)
+        for _ in range(ncases):
+            ops = []
+            for _ in range(per_case):
+                n = rnd.choice([0, 1, 2, 3, 4, 5, 31, 32, 33, 64, 100, 255, 256, 257, 1000, 4095, 4096, 4097]) if rnd.random() < 0.93 else rnd.choice([16384, 65535, 65536])
+                b = rnd.randbytes(n)
+                r = rnd.random()
+                if r < 0.35:
+                    ops.append(dict(op="Codec", dir="enc", bytes=list(b)))
+                else:
+                    t = bytearray(base64.urlsafe_b64encode(b).rstrip(b"="))
+                    if r < 0.55:
+                        pass
+                    elif r < 0.7 and t:
+                        t[rnd.randrange(len(t))] = rnd.choice([0x2e, 0x20, 0x2a, 0x80, 0xff, 0x0a, 0x40, 0x5b, 0x60, 0x7b, 0x3a, 0x2c])
+                    elif r < 0.8:
+                        while len(t) % 4 != 1:
+                            t.append(rnd.choice(_B64U))
+                    elif r < 0.9:
+                        t = bytearray(base64.b64encode(b).rstrip(b"="))          # standard alphabet
+                    else:
+                        t += b"=" * rnd.choice([1, 2, 3])
+                    ops.append(dict(op="Codec", dir="dec", chars=[c for c in t if c != 0]))
+            yield ops
+    return gen
